@@ -523,7 +523,33 @@ class HashRule(ABC):
             if rule == self:
                 if rule is not self and hasattr(rule, "other_resolvers"):
                     rule.other_resolvers.append(self.resolver)
+                    rule.other_symbols.append(self.symbol)
                 return
+
+    def _hash_with_aliases(self, target_hash: Optional[str], target_name: str) -> Optional[str]:
+        """
+        The rule is keyed by the function it resolves to, whatever symbols of the parent refer to that
+        function. Which symbol refers to which function is part of what the parent computes, so the
+        symbols that are not simply the function's own name are hashed together with the function:
+        otherwise re-binding an alias between two functions that are both dependencies already would
+        not change the version.
+
+        """
+        if target_hash is None:
+            return None
+        aliases = sorted(
+            set(
+                s
+                for s in [self.symbol] + self.other_symbols
+                if ":" not in s and s.split(".")[-1] != target_name
+            )
+        )
+        if not aliases:
+            return target_hash
+        sha256 = hashlib.sha256()
+        sha256.update(target_hash.encode("utf-8"))
+        sha256.update(json.dumps(aliases).encode("utf-8"))
+        return sha256.hexdigest()[0:16]
 
     def __lt__(self, other):
         return self.key < other.key
@@ -658,6 +684,7 @@ class MementoFunctionHashRule(HashRule):
         self.memento_fn = obj
         self.resolver = resolver
         self.other_resolvers = []  # type: List[Callable]
+        self.other_symbols = []  # type: List[str]
 
     def clone(self) -> "HashRule":
         rule = MementoFunctionHashRule(
@@ -668,6 +695,7 @@ class MementoFunctionHashRule(HashRule):
             self.first_level,
         )
         rule.other_resolvers = list(self.other_resolvers)
+        rule.other_symbols = list(self.other_symbols)
         return rule
 
     def collect_transitive_dependencies(
@@ -721,10 +749,14 @@ class MementoFunctionHashRule(HashRule):
             # to compute the version of the dependent function, so use a fixed-width digest of the
             # string: otherwise the versions "1", "23" of two dependencies are indistinguishable
             # from the versions "12", "3".
-            return hashlib.sha256(
+            target_hash = hashlib.sha256(
                 self.memento_fn.explicit_version.encode("utf-8")
             ).hexdigest()[0:16]
-        return self.memento_fn.code_hash
+        else:
+            target_hash = self.memento_fn.code_hash
+        return self._hash_with_aliases(
+            target_hash, getattr(self.memento_fn, "__name__", "")
+        )
 
     def did_change(self) -> bool:
         # Changes to the definition of a MementoFunctionType are more robust and detected using a
@@ -889,6 +921,7 @@ class NonMementoFunctionHashRule(HashRule):
         self.src_fn = obj
         self.resolver = resolver
         self.other_resolvers = []  # type: List[Callable]
+        self.other_symbols = []  # type: List[str]
 
     @staticmethod
     def _function_name(obj: Callable, symbol: str) -> str:
@@ -912,6 +945,7 @@ class NonMementoFunctionHashRule(HashRule):
             self.first_level,
         )
         rule.other_resolvers = list(self.other_resolvers)
+        rule.other_symbols = list(self.other_symbols)
         return rule
 
     def collect_transitive_dependencies(
@@ -952,7 +986,9 @@ class NonMementoFunctionHashRule(HashRule):
             )
 
     def compute_hash(self) -> Optional[str]:
-        return fn_code_hash(self.src_fn)
+        return self._hash_with_aliases(
+            fn_code_hash(self.src_fn), getattr(self.src_fn, "__name__", "")
+        )
 
     def did_change(self) -> bool:
         """
